@@ -180,6 +180,7 @@ def _raw(spec):
         A = rng.standard_normal(shape[:-2] + (D, D + 2))
         a = A @ np.swapaxes(A, -1, -2) / (D + 2) \
             + float(spec.get('load', 0.05)) * np.eye(D)
+        a = a * float(spec.get('mult', 1.0))
     elif kind == 'hsingular':
         # Hermitian PSD stack with some exactly singular members (a silent
         # bin: all zeros; a rank-one bin)
@@ -262,6 +263,13 @@ def _raw(spec):
         a = np.stack([rng.permutation(K) for _ in range(F)], axis=1)
     else:
         raise ValueError(kind)
+    if spec.get('zero_frames') and a.ndim >= 2:
+        # exactly silent frames (digital silence)
+        r2 = np.random.RandomState((int(spec['seed']) + 77) % (2 ** 32))
+        N = a.shape[-2]
+        for n in r2.choice(N, size=min(int(spec['zero_frames']), N - 1),
+                           replace=False):
+            a[..., int(n), :] = 0
     return a
 
 
